@@ -237,17 +237,42 @@ def run(ctx, rep):
             ev = only_via(PR, clone_from[0], lambda x: x[0] == "call" and x[1] == q0[1] and len(x) > 3 and x[3] == q0[3], is_all0)
             rep.check("C11.b", "reuse-guarded/every-path", ev, where=where(PR, clone_from[0]), what="every path that copies the parent's content has seen the all-chunks-indexed test succeed" if ev else
                       "the parent's content can be copied on a path where the all-chunks-indexed test did not succeed")
+        # the same test written as a loop (`for id in content { if !index.has_data(id) { all_indexed = false; break } }`):
+        # decided by evaluation - from any index lookup that answers "not indexed" the copy is out of reach (bool locals are
+        # followed path-sensitively), and the loop that asks stands before the copy on every path
+        loop_sites = []
+        if not ok:
+            import pathsens
+            hd = [bb for bb, t in PR.calls() if "callee" in t and re.search(r"has_data$", callee(t))]
+            ev_false = lambda b_, e_: False if (e_[0] == "call" and re.search(r"has_data$", e_[1])) else None
+            good = []
+            for h in hd:
+                r_ = pathsens.reachable_under(PR, lambda b_, bb_: None, eval_expr=ev_false, start_bb=h)
+                nx = [bb for bb, t in PR.calls() if "callee" in t and re.search(r"Iterator>::next$", callee(t)) and C.can_reach(PR, bb, h) and C.can_reach(PR, h, bb)]
+                before = bool(nx) and all(C.dominates(PR, n_, clone_from[0]) for n_ in nx[:1])
+                if clone_from[0] not in r_ and C.can_reach(PR, h, clone_from[0]) and before:
+                    good.append(h)
+            if hd and len(good) == len(hd):
+                ok = True
+                loop_sites = good
+                rep.check("C11.b", "reuse-guarded/every-path", True, where=where(PR, clone_from[0]), what="every path that copies the parent's content has gone through the loop that tests each chunk id; after a miss the copy is out of reach")
         rep.check("C11.b", "reuse-guarded", ok, where=where(PR, clone_from[0]), what="the parent's content is reused only if every chunk id is in the index (all(has_data) / !any(!has_data))" if ok else "a file's content is taken from the parent WITHOUT checking that all its chunks are still indexed")
         # the chunks tested are the PARENT node's content - the very list that is copied
         t_cf = PR.term(clone_from[0])
 
         def recv_root(e):
             # strip iterator / reference adaptors along the receiver chain
-            while e[0] == "call" and re.search(r"::(flatten|iter|into_iter|as_ref|as_deref|deref|copied|cloned|as_slice)$", e[1]) and e[2]:
-                e = e[2][0]
-            return e
+            while True:
+                if e[0] == "call" and re.search(r"::(flatten|iter|into_iter|as_ref|as_deref|deref|copied|cloned|as_slice|next)$", e[1]) and e[2]:
+                    e = e[2][0]
+                elif e[0] == "proj" and e[1][0] == "call" and re.search(r"Iterator>::next$", e[1][1]) and list(e[3] if len(e) > 3 else []) == ["Some"]:
+                    e = e[1]          # the element a loop draws from the iterator
+                else:
+                    return e
         copied = recv_root(flow.expr_of(PR, t_cf["args"][1]))
         oks = any(recv_root(q[2][0]) == copied and copied[0] in ("proj", "path") and "content" in copied[2] for q in guard_calls)
+        if loop_sites:
+            oks = all(recv_root(flow.expr_of(PR, PR.term(h)["args"][-1], h)) == copied and copied[0] in ("proj", "path") and "content" in copied[2] for h in loop_sites)
         rep.check("C11.b", "tested-list-is-copied-list", oks, where=where(PR, clone_from[0]), what="the chunk ids tested against the index are the parent node's content that is copied into the new node" if oks else
                   "the index test runs over a different list than the parent content that is reused (e.g. the still-empty content of the new node): the test is vacuous")
         # the other edge yields NotFound
